@@ -10,6 +10,7 @@ import Driver.Strand
 import Driver.Wait
 import Driver.Event
 import Driver.CoMutex
+import Driver.Coro
 import Driver.CoSharedMutex
 
 def main (args : List String) : IO UInt32 := do
@@ -27,6 +28,7 @@ def main (args : List String) : IO UInt32 := do
   | ["validate", "when"] => Yaclib.Driver.validate Yaclib.Driver.WhenD.model
   | ["validate", "event"] => Yaclib.Driver.validate Yaclib.Driver.EventD.model
   | ["validate", "comutex"] => Yaclib.Driver.validate Yaclib.Driver.CoMutexD.model
+  | ["validate", "coro"] => Yaclib.Driver.validate Yaclib.Driver.CoroD.model
   | ["validate", "cosharedmutex"] => Yaclib.Driver.validate Yaclib.Driver.CoSharedMutexD.model
   | _ =>
     IO.eprintln "usage: ymdriver <model> …"
